@@ -276,7 +276,10 @@ where
             // Skip if outside boundary.
             if !model.within_boundary(&state) {
                 log::trace!("Found state outside of boundary");
-                break;
+                // return not break here: the path so far may have other successors inside the
+                // boundary (or be empty for an initial state), so it is no counterexample to an
+                // eventually property.
+                return;
             }
 
             // add the current fingerprint to the path
